@@ -6,7 +6,10 @@ lemmas to the hand models (Alg/C13Solver.v, Model/C10Tucker.v, Model/C09Loop.v) 
 W4SC09.v are re-checked over the regenerated text.
 Differential stream: the real driver runs with the numeric kernels recorded by the harness (objective estimates per epoch
 boundary, eigenvalues per mode, residual / fit per sweep); the recorded oracle answers are replayed through the GENERATED
-skeleton in Coq (Model/W4SHarness.v) and iteration counts / returned best index / traces / ranks are compared exactly."""
+skeleton in Coq (Model/W4SHarness.v) and iteration counts / returned best index / traces / ranks are compared exactly.
+Wave 5: Gen/GenSampler.v (GCPSampler constructor: default-count table, bridge to Alg/C13Config.v, Props/W4SC13b.v, op sk_sampler),
+Gen/GenHosvdFull.v (whole hosvd, Props/W4SC10c.v, op sk_hosvd_full), Gen/GenCpAlsPre.v (prologue of cp_als, Props/W4SC09b.v, op
+sk_cpals_pre), Gen/GenGcpOpt.v (gcp_opt + _get_initial_guess, Props/W4SC13c.v, op sk_gcp_opt with stub solvers)."""
 import math
 from fractions import Fraction
 
@@ -14,9 +17,9 @@ from vcheck import Case, gz, gzlist, gnat, gnlist, gnmat, gbool
 
 PROP = "W4S"
 LEVEL = "proof"
-GEN_UNITS = ["GenSolver", "GenHosvd", "GenCpAls", "GenTuckerAls", "GenCpAprMu", "GenSampler", "GenHosvdFull", "GenCpAlsPre"]
-COQ_TARGETS = ["Props/W4SC13.vo", "Props/W4SC10.vo", "Props/W4SC10b.vo", "Props/W4SC09.vo", "Props/W4SC11.vo", "Props/W4SC13b.vo", "Props/W4SC10c.vo", "Props/W4SC09b.vo", "Model/W4SHarness.vo"]
-THEOREM_FILES = ["Props/W4SC13.v", "Props/W4SC10.v", "Props/W4SC10b.v", "Props/W4SC09.v", "Props/W4SC11.v", "Props/W4SC13b.v", "Props/W4SC10c.v", "Props/W4SC09b.v"]
+GEN_UNITS = ["GenSolver", "GenHosvd", "GenCpAls", "GenTuckerAls", "GenCpAprMu", "GenSampler", "GenHosvdFull", "GenCpAlsPre", "GenGcpOpt"]
+COQ_TARGETS = ["Props/W4SC13.vo", "Props/W4SC10.vo", "Props/W4SC10b.vo", "Props/W4SC09.vo", "Props/W4SC11.vo", "Props/W4SC13b.vo", "Props/W4SC10c.vo", "Props/W4SC09b.vo", "Props/W4SC13c.vo", "Props/W4SC13d.vo", "Model/W4SHarness.vo"]
+THEOREM_FILES = ["Props/W4SC13.v", "Props/W4SC10.v", "Props/W4SC10b.v", "Props/W4SC09.v", "Props/W4SC11.v", "Props/W4SC13b.v", "Props/W4SC10c.v", "Props/W4SC09b.v", "Props/W4SC13c.v", "Props/W4SC13d.v"]
 COQ_IMPORTS = ("From Coq Require Import List ZArith Bool.\n"
                "From PV Require Import Model.W4SHarness Model.W4SPreludeZ Gen.GenSampler.\n")
 RULE = ("solve: SGD/Adam on 2x2..3x2x2 problems, rates 1e-3..30 (failing epochs), max_fails 0..2, max_iters 0..5, epoch_iters 0..3, "
@@ -30,7 +33,7 @@ EXPLANATION = ("The generated skeletons keep every control-flow decision of the 
                "writes and slices, rank cut-off); all numerics are Section parameters. Theorems are stated for ALL instantiations of "
                "the parameters; the stream instantiates them with the answers recorded from the real run.")
 CORRESPONDENCE_ONLY = []
-TRUSTED_EXTRA = ["skeleton translator tools/pyx2v_skel.py (statement-level control flow; kernels recognised by dotted name or exact source text)"]
+TRUSTED_EXTRA = ["skeleton translator tools/pyx2v_skel.py (statement-level control flow; kernels recognised by dotted name or exact source text; trusted rewritings: np.arange(d) = seq 0 d, np.zeros((d,), dtype=int) = repeat 0 d, [np.empty(1)] * d = repeat c d, parse_one_d(x) = x on int sequences; Optional[Union[int, C]] arguments as the four-way value sk_dyn; exceptions raised INSIDE a kernel are not modelled; dropped statements (print / logging / warnings calls, assignments to drop variables) are dropped together with their argument / right-hand-side expressions: a side effect inside them is invisible to the skeleton)"]
 SHARD = 100
 
 
@@ -137,6 +140,29 @@ def gen_cases(rng, tier):
     cases += _sampler_cases(rng, big)
     cases += _hosvd_full_cases(rng, big)
     cases += _cpals_pre_cases(rng, big)
+    cases += _gcp_opt_cases(rng, big)
+    return cases
+
+
+def _gcp_opt_cases(rng, big):
+    """the driver gcp_opt with stub solvers: every accepted combination class + every rejected row"""
+    cases = []
+    for k in range(200 if big else 80):
+        valid = rng.random() < 0.55
+        data = rng.choice(["dense", "dense", "sparse"]) if valid else rng.choice(["dense", "dense", "sparse", "sparse", "other"])
+        shape = rng.choice([[2, 2], [2, 3], [3, 2, 2]])
+        if valid:
+            opt = "sgd" if data == "sparse" else rng.choice(["sgd", "lbfgsb", "lbfgsb", "adam"])
+            mask = rng.choice([None, "tensor", "ndarray"]) if (data == "dense" and opt == "lbfgsb") else None
+            objective = rng.choice(["enum", "tuple3"])
+            init = rng.choice(["random", "random", "k_good", "seq_good"])
+        else:
+            opt = rng.choice(["sgd", "lbfgsb", "adam", "other"])
+            mask = rng.choice([None, None, "tensor", "ndarray"])
+            objective = rng.choice(["enum", "tuple3", "tuple2", "tuple4"])
+            init = rng.choice(["random", "k_good", "k_shape", "k_ncomp", "seq_good", "seq_ncomp", "foo", "Random"])
+        cases.append(Case("sk_gcp_opt", {"data": data, "shape": shape, "rank": rng.choice([1, 2]), "opt": opt, "mask": mask, "objective": objective,
+                                         "init": init}, True))
     return cases
 
 
@@ -282,6 +308,11 @@ def _sampler_cases(rng, big):
                  "fkind": rng.choice(_SMP_KINDS + [None]), "freq": rng.choice(_SMP_REQS), "gkind": rng.choice(_SMP_KINDS + [None]),
                  "greq": rng.choice(_SMP_REQS)}
         cases.append(Case("sk_sampler", a, True))
+    # negative counts are taken as they are (np.arange of a negative count is empty): fixed cases, no draws
+    for sparse, shape, nnz, gk, greq in [(False, [2, 3], 3, "SEMISTRATIFIED", -2), (True, [2, 3], 5, "SEMISTRATIFIED", [-1, 2]),
+                                         (True, [2, 3], 5, "STRATIFIED", -3), (True, [40, 50], 2000, "SEMISTRATIFIED", [0, -4])]:
+        cases.append(Case("sk_sampler", {"sparse": sparse, "shape": shape, "nnz": nnz, "max_iters": 1000, "fkind": None, "freq": None, "gkind": gk,
+                                         "greq": greq}, True))
     return cases
 
 
@@ -528,8 +559,10 @@ def _run_sampler(a):
     def w_ceil(x):          # math.ceil of a float quotient: which of the source's four quotients, and the answer
         r = o_ceil(x)
         hit = [(n, d) for n, d in quotients if d != 0 and n / d == x]
-        if hit:
-            calls.append([hit[0][0], hit[0][1], int(r)])
+        if hit:          # distinct quotients of the source can be the same float (size = nnz, max_iters = 1000): the answer serves all of them
+            for n_, d_ in hit:
+                if [n_, d_, int(r)] not in calls:
+                    calls.append([n_, d_, int(r)])
         else:
             unknown.append(float(x))
         return r
@@ -587,8 +620,81 @@ def _run_cpals_pre(a):
             "nvecs": nv, "same": bool(Minit is init), "minit_shapes": [list(f.shape) for f in Minit.factor_matrices]}
 
 
+def _run_gcp_opt(a):
+    import logging
+    import numpy as np
+    import pyttb as ttb
+    from pyttb.gcp import optimizers
+    from pyttb.gcp.fg_setup import setup
+    from pyttb.gcp.handles import Objectives
+    shp = tuple(a["shape"])
+    n = math.prod(shp)
+    arr = (np.arange(1, n + 1, dtype=float) % 4 + 1).reshape(shp, order="F")
+    dense = ttb.tensor(arr.copy())
+    if a["data"] == "dense":
+        data = dense
+    elif a["data"] == "sparse":
+        z = arr.copy()
+        z.flat[1::2] = 0
+        data = ttb.tensor(z).to_sptensor() if hasattr(ttb.tensor, "to_sptensor") else ttb.sptensor.from_tensor_type(ttb.tensor(z))
+    else:
+        data = arr.copy()
+    h0 = setup(Objectives.GAUSSIAN, dense)
+    handles = (lambda *x: h0[0](*x), lambda *x: h0[1](*x), h0[2])          # own callables: told apart from setup()'s by identity
+    objective = {"enum": Objectives.GAUSSIAN, "tuple3": tuple(handles), "tuple2": tuple(handles)[:2], "tuple4": tuple(handles) + (0.0,)}[a["objective"]]
+    opt = {"sgd": lambda: optimizers.SGD(max_iters=1, epoch_iters=1, printitn=0), "adam": lambda: optimizers.Adam(max_iters=1, epoch_iters=1, printitn=0),
+           "lbfgsb": lambda: optimizers.LBFGSB(maxiter=1), "other": lambda: "sgd"}[a["opt"]]()
+    R = a["rank"]
+    fac = lambda shp_, r_: [np.full((s_, r_), 0.5) + np.arange(s_ * r_, dtype=float).reshape((s_, r_)) / 8 for s_ in shp_]
+    init = {"random": lambda: "random", "Random": lambda: "Random", "foo": lambda: "foo", "k_good": lambda: ttb.ktensor(fac(shp, R)),
+            "k_shape": lambda: ttb.ktensor(fac(tuple(s_ + 1 for s_ in shp), R)), "k_ncomp": lambda: ttb.ktensor(fac(shp, R + 1)),
+            "seq_good": lambda: fac(shp, R), "seq_ncomp": lambda: fac(shp, R + 1)}[a["init"]]()
+    mask_arr = np.ones(shp)
+    mask_arr.flat[0] = 0
+    mask_t = ttb.tensor(mask_arr.copy())
+    mask = {None: None, "tensor": mask_t, "ndarray": mask_arr}[a["mask"]]
+    rec, draws = [], []
+    o_uniform = np.random.uniform
+    o_s, o_l = optimizers.StochasticSolver.solve, optimizers.LBFGSB.solve
+
+    def w_uniform(lo, hi, size=None):
+        draws.append([int(x) for x in size])
+        return o_uniform(lo, hi, size)
+
+    def stub(which):
+        def solve(self_, M0, data_, fh, gh, lb, last=None):
+            masked = bool(float(data_.data.flat[0]) == 0.0) if isinstance(data_, ttb.tensor) else False
+            lastk = 0 if last is None else (3 if last is mask_t.data else (2 if last is mask_arr else (1 if last is mask_t else 9)))
+            rec.append({"which": which, "m0": M0, "masked": masked, "same_data": data_ is data, "fh": 2 if fh is handles[0] else 1, "last": lastk,
+                        "draws": len(draws), "lb_tuple": lb is handles[2] or lb == handles[2]})
+            return M0, {}
+        return solve
+    np.random.uniform = w_uniform
+    optimizers.StochasticSolver.solve, optimizers.LBFGSB.solve = stub("s"), stub("l")
+    lvl = logging.getLogger().level
+    try:
+        result, M0, info = ttb.gcp_opt(data, R, objective, opt, init=init, mask=mask, printitn=0)
+    finally:
+        np.random.uniform = o_uniform
+        optimizers.StochasticSolver.solve, optimizers.LBFGSB.solve = o_s, o_l
+    if len(rec) != 1:
+        return {"exc": "Harness", "msg": f"{len(rec)} solve calls"}
+    r = rec[0]
+    if isinstance(init, ttb.ktensor):
+        kind = "same" if M0 is init else "other"
+    elif isinstance(init, list):
+        kind = "fromseq" if isinstance(M0, ttb.ktensor) and all(np.shape(x) == np.shape(y) for x, y in zip(M0.factor_matrices, init)) else "other"
+    else:
+        kind = "built"
+    return {"which": r["which"], "masked": r["masked"], "same_data": r["same_data"], "fh": r["fh"], "last": r["last"], "draws": r["draws"],
+            "draw_sizes": draws[:r["draws"]], "m0_kind": kind, "m0_is_start": r["m0"] is M0, "result_is_m0": result is M0,
+            "main_time": "main_time" in info, "m0_shapes": [list(f.shape) for f in M0.factor_matrices]}
+
+
 def run_impl(c):
     try:
+        if c.op == "sk_gcp_opt":
+            return _run_gcp_opt(c.args)
         if c.op == "sk_cpals_pre":
             return _run_cpals_pre(c.args)
         if c.op == "sk_sampler":
@@ -633,6 +739,8 @@ def coq_check(c, o):
         if "exc" in o:
             if "Infinite gradient" in o.get("msg", ""):
                 return None
+            if o["exc"] == "ValueError" and "broadcast" in o.get("msg", "") and a.get("sparse"):
+                return None          # short zero supply of the stratified sampler (open finding C13-S1, attributed by c13.py): the sampler KERNEL raises
             if o["exc"] in ("UnboundLocalError", "NameError") and a["epoch_iters"] == 0 and a["max_iters"] > 0:
                 return f"zsk_solve_raises [0%Z] {gnat(a['max_iters'])} 0%nat {gnat(a['max_fails'])} 0%Z"
             return "false"
@@ -657,6 +765,30 @@ def coq_check(c, o):
         d = len(a["shape"])
         return (f"zsk_hosvd_ok {_pairs_nat_zlist(o['Ds'], z)} {_pairs_zlist_nlist(o['pis'], z)} {gnlist(order)} {gnlist(o['ranks_in'])} "
                 f"{gz(z(Fraction(o['thresh'])))} {gbool(a['sequential'])} {gnlist(o['ranks_obs'])} {gnmat(o['cols'])}")
+    if c.op == "sk_gcp_opt":
+        shp, R = a["shape"], a["rank"]
+        dk = {"dense": 0, "sparse": 1, "other": 2}[a["data"]]
+        ok_ = {"enum": 0, "tuple3": 3, "tuple2": 2, "tuple4": 4}[a["objective"]]
+        op_ = {"sgd": 0, "adam": 0, "lbfgsb": 1, "other": 2}[a["opt"]]
+        mk = {None: 0, "tensor": 1, "ndarray": 2}[a["mask"]]
+        zi = {"random": "(ZGStr true)", "Random": "(ZGStr false)", "foo": "(ZGStr false)", "k_good": "(ZGK false false 0)", "k_shape": "(ZGK true false 0)",
+              "k_ncomp": "(ZGK false true 0)", "seq_good": "(ZGSeq false false)", "seq_ncomp": "(ZGSeq false true)"}[a["init"]]
+        head = f"({gnat(dk)}, {gnat(len(shp))}, false) {gnat(ok_)} {gnat(op_)} {zi} {gnat(mk)}"
+        if "exc" in o:
+            return f"zsk_gcp_opt_raises {head}" if o["exc"] == "ValueError" else "false"
+        if not (o["m0_is_start"] and o["result_is_m0"] and o["main_time"]) or o["m0_shapes"] != [[s_, R] for s_ in shp]:
+            return "false"
+        masked_model = dk == 0 and mk == 1          # the mask product is applied to dense data with a tensor mask (token: data third component)
+        if o["masked"] != masked_model or o["same_data"] == masked_model:          # `data *= mask` rebinds (tensor has no __imul__): a new object
+            return "false"
+        if o["m0_kind"] == "same" or o["m0_kind"] == "fromseq":
+            m0 = "(ZGK false false 1)"
+        elif o["m0_kind"] == "built":
+            m0 = "(ZGBuilt " + gnlist([100 + k if d_ == [shp[k] if k < len(shp) else -1, R] else 999 for k, d_ in enumerate(o["draw_sizes"])]) + " 11)"
+        else:
+            return "false"
+        info = (10 + o["fh"] if o["which"] == "s" else 20 + 10 * o["last"] + o["fh"]) + 100
+        return f"zsk_gcp_opt_ok {head} {m0} {gnat(info)} {gnat(o['draws'])}"
     if c.op == "sk_cpals_pre":
         shp, rank = a["shape"], a["rank"]
         N = len(shp)
@@ -805,6 +937,8 @@ def oracle(c, o):
             if conf[0] in ("stratified", "semistrat") and not (0 <= conf[1] <= o["nnz"] and 0 <= conf[2] <= o["size"] - o["nnz"]):
                 return f"default stratified counts {conf[1:]} exceed nonzeros {o['nnz']} / zeros {o['size'] - o['nnz']}"
         return None
+    if c.op == "sk_gcp_opt":
+        return None if ("exc" not in o or o["exc"] == "ValueError") else f"raised {o['exc']}: {o.get('msg')}"
     if c.op == "sk_cpals_pre":
         rejected = a["bad"] not in (None, "random_sum")
         if rejected != (o.get("exc") == "AssertionError") or ("exc" in o and o["exc"] != "AssertionError"):
